@@ -36,6 +36,9 @@ type c11Run struct {
 	post ref.State
 	log  []bus.Access
 	pan  any
+	// seen: what a device saw in the other index register (IY during a DD form, IX during an FD form) at one of
+	// the bus accesses of the Step, when it was not what the register held before the Step
+	seen string
 }
 
 func (r *c11Rig) exec(c *c11Case, st ref.State, code []uint8) c11Run {
@@ -46,7 +49,22 @@ func (r *c11Rig) exec(c *c11Case, st ref.State, code []uint8) c11Run {
 	r.cpu = z80.CPU{Memory: r.b, IO: r.b}
 	eng.ToCPU(&st, &r.cpu)
 	var out c11Run
+	if len(code) > 0 && (code[0] == 0xDD || code[0] == 0xFD) {
+		// "neither form ever reads or writes the other index register": not even for the duration of the instruction
+		r.b.Hook = func(n int, _ bus.Access) {
+			if out.seen != "" {
+				return
+			}
+			if code[0] == 0xDD && r.cpu.IY != st.IY {
+				out.seen = fmt.Sprintf("at its bus access #%d the DD form has IY=%04x (it was %04x before the Step)", n, r.cpu.IY, st.IY)
+			}
+			if code[0] == 0xFD && r.cpu.IX != st.IX {
+				out.seen = fmt.Sprintf("at its bus access #%d the FD form has IX=%04x (it was %04x before the Step)", n, r.cpu.IX, st.IX)
+			}
+		}
+	}
 	out.pan = eng.SafeStep(&r.cpu)
+	r.b.Hook = nil
 	out.post = eng.FromCPU(&r.cpu)
 	out.log = append([]bus.Access(nil), r.b.Log...)
 	return out
@@ -81,6 +99,12 @@ func (r *c11Rig) check(c *c11Case, code []uint8) (string, bool) {
 		if i > 0 && (x.K == bus.Read || x.K == bus.Write) && x.Addr == pc0 {
 			return "", true
 		}
+	}
+	if a.seen != "" {
+		return a.seen, false
+	}
+	if b.seen != "" {
+		return b.seen, false
 	}
 	if pb := swapXY(b.post); pb != a.post {
 		in := ref.Info{FMask: 0xff}
@@ -151,9 +175,9 @@ func TestC11(t *testing.T) {
 	col := stats.New("C11")
 	col.Sub = "mirror"
 	defer finish(t, col)
-	col.Rule = "all 256 second bytes after DD/FD (except DD/FD themselves: a further prefix, not an opcode of the table) and all 256 fourth bytes after DDCB/FDCB, enumerated, " +
+	col.Rule = "all 256 second bytes after DD/FD (DD / FD themselves - a further prefix, not an opcode of the table - only followed by NOPs) and all 256 fourth bytes after DDCB/FDCB, enumerated, " +
 		"x rapid-drawn pre-states with independent IX, IY, displacement, registers, flags, memory, 1/3 aliased; oracle = metamorphic: FD form from swap(S) == swap(DD form from S) " +
-		"with identical access sequence except the prefix byte, and re-running with the other index register perturbed changes nothing else; " +
+		"with identical access sequence except the prefix byte, re-running with the other index register perturbed changes nothing else, and at every bus access of the Step a device finds the other index register as it was; " +
 		"cases where a data access hits the prefix byte's own address are excluded and counted; non-trivial = encoding implemented by the reference table and touching the index register; distinct by hash(bytes, state)"
 	// which encodings use the index register (for the non-trivial rule)
 	uses := map[string]bool{}
@@ -204,6 +228,10 @@ func TestC11(t *testing.T) {
 		}
 		for op := 0; op < 256; op++ {
 			if op == 0xDD || op == 0xFD {
+				// a further prefix, not an opcode of the table. What a tree makes of a prefix chain is its own business
+				// (swallow two bytes as invalid, un-fetch the second prefix, run the chain in one Step), but with a
+				// plain NOP as the third byte every one of these treats DD <prefix> 00 and FD <prefix> 00 alike
+				run(fmt.Sprintf("%02x", op), []uint8{0xDD, uint8(op), 0x00, 0x00, 0x00})
 				continue
 			}
 			if op != 0xCB {
